@@ -225,6 +225,15 @@ func runC05(c *hx.Ctx) {
 				}
 			}
 			r.Shuffle(len(files), func(i, j int) { files[i], files[j] = files[j], files[i] })
+			// sometimes one file cannot be opened or is longer than it declares
+			if len(files) > 0 && r.Intn(4) == 0 {
+				i := r.Intn(len(files))
+				if r.Intn(2) == 0 {
+					files[i].OpenErr = true
+				} else if len(files[i].Content) > 0 {
+					files[i].Size = int64(r.Intn(len(files[i].Content)))
+				}
+			}
 		default:
 			files = gen.ModuleFileList(r)
 		}
